@@ -25,6 +25,7 @@ type Solver struct {
 	answer  *Solver // which process produced the last sat answer (for get-value)
 	script  strings.Builder // commands since the last reset (replayed into a fresh process after a kill)
 	restart bool
+	retried bool
 }
 
 type SolverStats struct {
@@ -191,6 +192,14 @@ func (s *Solver) kill() {
 // Check runs (check-sat) and returns "sat", "unsat" or "unknown" (also for errors/timeouts). With a
 // portfolio partner both processes are raced; the loser is killed and respawned lazily.
 func (s *Solver) Check() string {
+	if os.Getenv("GOSYM_DEBUG") != "" {
+		t0 := time.Now()
+		defer func() {
+			if d := time.Since(t0); d > 3*time.Second {
+				fmt.Fprintf(logw, "SLOW-QUERY %.1fs pid=%d\n", d.Seconds(), s.cmd.Process.Pid)
+			}
+		}()
+	}
 	if s.alt == nil {
 		s.answer = s
 		return s.check1()
@@ -234,6 +243,15 @@ func (s *Solver) Check() string {
 	}
 	s.alt = alt
 	s.answer = res.who
+	if res.r == "unknown" && !s.retried {
+		// both inconclusive (time limit under load, or a killed process): one retry on fresh processes
+		s.retried = true
+		s.kill()
+		alt.kill()
+		r2 := s.Check()
+		s.retried = false
+		return r2
+	}
 	return res.r
 }
 
